@@ -6,8 +6,9 @@
    FULL STATEMENT (the property): forall fuel env code st st' inputs stf,
        typecheck code st = Some (Typed st') -> stack_typed inputs st -> py_eval env fuel code (mkst [] inputs) = PDone stf ->
        Forall2 (fun v t => rt_type v = t) (view stf) st'          (and hence the storage returned by run_code).
-   PROVED below ([_partial]): the statement for the fragment of Michelson/Instr.v ([in_fragment], see C01.v) and for
-   programs accepted by [typecheck_nr] (every MAP body returns the element type it received).
+   PROVED below ([_partial]): the statement for every instruction of Michelson/Instr.v (sets and maps with UPDATE, GET_AND_UPDATE,
+   MAP, literals included; see C01.v) and for programs accepted by [typecheck_nr] (every MAP body returns the element/value
+   type it received; APPLY does not capture sets/maps).
    REFUTED for [typecheck] itself: `PUSH (list nat) {} ; MAP { INT }` leaves a `list nat` where the typing rules say
    `list int` (known finding empty-map-retype, control.py MapInstruction: `res = src  # TODO`). *)
 From Coq Require Import List ZArith Bool Arith.
@@ -44,10 +45,10 @@ Theorem C02_typed_rt_type : forall v t, pv_typedb v t = true -> rt_type v = t.
 Proof. exact typed_rt_type. Qed.
 Print Assumptions C02_typed_rt_type.
 
-(* literals (without sets/maps: [has_coll t = false]): PUSH of a well-typed literal produces a value of exactly that type that erases to the literal *)
-Theorem C02_push_literal : forall d t, data_has_type t d = true -> has_coll t = false ->
+(* literals, set and map literals included ([wf_ty]: set elements / map keys of comparable type): PUSH of a well-typed literal produces a value of exactly that type that erases to the literal *)
+Theorem C02_push_literal : forall d t, data_has_type t d = true -> wf_ty t = true ->
   exists v, py_of_data t d = Some v /\ pv_typedb v t = true /\ erase v = value_of_data d.
-Proof. exact py_of_data_typed. Qed.
+Proof. exact py_of_data_typed_wf. Qed.
 Print Assumptions C02_push_literal.
 
 (* per-instruction preservation: every instruction without sub-programs returns values of the static types *)
@@ -72,6 +73,19 @@ Theorem C02_map_keeps_key_types : forall kt vt b l ys,
   map py_key (py_rekey l ys) = map py_key l.
 Proof. exact map_map_types. Qed.
 Print Assumptions C02_map_keeps_key_types.
+
+(* UPDATE on sets and UPDATE / GET_AND_UPDATE on maps keep the collection well-typed: element/key/value classes, and the
+   Python list stays strictly sorted (what check_constraints demands), for every comparable key type *)
+Theorem C02_set_update_keeps_type : forall t x (b : bool) l, typed x t -> comparable t = true -> typed (PSet t l) (TSet t) ->
+  typed (PSet t (if b then py_set_add x l else py_set_remove x l)) (TSet t).
+Proof. intros t x b l Hx Hc Hs. exact (proj2 (set_update_agree t x b l Hx Hc Hs)). Qed.
+Print Assumptions C02_set_update_keeps_type.
+
+Theorem C02_map_update_keeps_type : forall kt vt k ov l, typed k kt -> comparable kt = true -> typed ov (TOption vt) ->
+  typed (PMap kt vt l) (TMap kt vt) ->
+  typed (PMap kt vt (py_map_update k (match ov with PSome v => Some v | _ => None end) l)) (TMap kt vt).
+Proof. intros kt vt k ov l Hk Hc Ho Hm. exact (proj2 (map_update_agree kt vt k ov l Hk Hc Ho Hm)). Qed.
+Print Assumptions C02_map_update_keeps_type.
 
 (* the defect: MAP over an empty list keeps the source type *)
 Theorem C02_preservation_refuted : exists e fuel code st st' inputs stf,
